@@ -9,8 +9,8 @@
 EXTENDS Diff, Json
 CONSTANT DeepFull      \* TRUE: all chain patterns and all replacement combinations
 
-Pats == IF DeepFull THEN {<<"arr">>, <<"obj">>, <<"arr", "obj">>, <<"obj", "arr">>, <<"arr", "arr", "obj">>}
-        ELSE {<<"arr", "obj">>, <<"obj", "arr">>}
+Pats == IF DeepFull THEN {<<"arr">>, <<"obj">>, <<"arr", "obj">>, <<"obj", "arr">>, <<"arr", "arr", "obj">>, <<"obj", "obj", "arr">>}
+        ELSE {<<"arr">>, <<"obj">>, <<"arr", "obj">>, <<"obj", "arr">>}
 Wrap(kind, x) == IF kind = "arr" THEN Arr(<<In(0), x>>) ELSE Obj(<<"a">>, <<x>>)
 RECURSIVE Chain(_, _, _)
 \* d containers above `bottom`; container number i (from the top, 1-based) has kind pat[((i - 1) % Len(pat)) + 1]
